@@ -187,6 +187,40 @@ class Run:
         ob.fallback = lambda: build(False)
         return self._add(ob)
 
+    def tightest_pieces(self, h, unit, pieces, ref, bound, k=8, stride=5):
+        """piece SELECTION aid for the sampled (quick) tiers: the native build is evaluated on a coarse grid and the k pieces
+        in which the result comes closest to (or beyond) its bound are returned.  Nothing is decided here - the selected
+        pieces are then decided by the solver like every other piece; the grid only steers the sample towards the places
+        where a change of the code would show first."""
+        import math
+        try:
+            nat = h.native("g++", "-O2")
+            xs, owner = [], []
+            for pi, p in enumerate(pieces):
+                lo, hi = p[0], p[1]
+                step = max(1, min(stride, (hi - lo) // 4 or 1))
+                for x in range(lo, hi + 1, step):
+                    xs.append(x)
+                    owner.append(pi)
+            outs = nat.run([(unit, [B.to_unsigned(x, 64)]) for x in xs])
+            worst = {}
+            for x, pi, o in zip(xs, owner, outs):
+                if isinstance(o, B.Died) or o is None:
+                    m = -1e18
+                else:
+                    v = B.to_signed(o, 64)
+                    try:
+                        m = bound(x) - abs(v - ref(x))
+                    except (ValueError, ZeroDivisionError, OverflowError):
+                        continue
+                worst[pi] = min(worst.get(pi, 1e18), m)
+            order = sorted(worst, key=lambda pi: worst[pi])[:k]
+            self.extra_cov.setdefault("grid_guided_selection", {})[unit] = {
+                "grid_points": len(xs), "selected": [[pieces[pi][0], pieces[pi][1], round(worst[pi], 3)] for pi in order]}
+            return [pieces[pi] for pi in order]
+        except (B.BuildError, OSError):
+            return []
+
     # ----------------------------------------------------------------- known findings
     def known_for(self, ob):
         out = []
